@@ -23,6 +23,7 @@ import (
 	_ "verif/checks/c16"
 	_ "verif/checks/c17"
 	_ "verif/checks/c18"
+	_ "verif/checks/c19"
 	_ "verif/checks/c20"
 	_ "verif/checks/queue"
 	"verif/engine"
